@@ -136,14 +136,14 @@ theorem days_next_day (y m d : Nat) : daysFromCivil y m (d + 1) = daysFromCivil 
   push_cast
   omega
 
-theorem days_next_month (y m : Nat) (hy : 1 ≤ y) (h1 : 1 ≤ m) (h2 : m < 12) :
+theorem days_next_month (y m : Nat) (h1 : 1 ≤ m) (h2 : m < 12) :
     daysFromCivil y (m + 1) 1 = daysFromCivil y m (daysInMonth y m) + 1 := by
   have hm : m = 1 ∨ m = 2 ∨ m = 3 ∨ m = 4 ∨ m = 5 ∨ m = 6 ∨ m = 7 ∨ m = 8 ∨ m = 9 ∨ m = 10 ∨ m = 11 := by
     omega
   rcases hm with h | h | h | h | h | h | h | h | h | h | h <;> subst h <;>
     simp [daysFromCivil, daysInMonth, isLeap] <;> (try split) <;> omega
 
-theorem days_next_year (y : Nat) (hy : 1 ≤ y) :
+theorem days_next_year (y : Nat) :
     daysFromCivil (y + 1) 1 1 = daysFromCivil y 12 31 + 1 := by
   simp [daysFromCivil]
   omega
